@@ -250,23 +250,25 @@ def units_texts(d):
 
 
 # ------------------------------------------------------------------- values
-def T(text, kind="word"):
-    return (text, kind)
+def T(text, kind="word", val=None):
+    """A token: (text, kind, val).  val is the expected canonical value of a
+    value token, the units string of a units token, else None."""
+    return (text, kind, val)
 
 
 @functools.lru_cache(maxsize=None)
 def simple_values(d, numeric_only=False):
     """Strategy of (tokens, expected canon, is_numeric)."""
     nums = st.one_of(dec_ints(d), dec_ints(d), based_ints(d), reals(d), reals(d))
-    numv = nums.map(lambda t: ([T(t[0])], t[1], True))
+    numv = nums.map(lambda t: ([T(t[0], "word", t[1])], t[1], True))
     if numeric_only:
         return numv
     others = st.one_of(
-        keywords().map(lambda t: ([T(t[0])], t[1], False)),
-        unquoted_strings(d).map(lambda t: ([T(t[0])], t[1], False)),
-        quoted_strings(d).map(lambda t: ([T(t[0], "quoted")], t[1], False)),
-        quoted_strings(d).map(lambda t: ([T(t[0], "quoted")], t[1], False)),
-        temporals(d).map(lambda t: ([T(t[0])], t[1], False)),
+        keywords().map(lambda t: ([T(t[0], "word", t[1])], t[1], False)),
+        unquoted_strings(d).map(lambda t: ([T(t[0], "word", t[1])], t[1], False)),
+        quoted_strings(d).map(lambda t: ([T(t[0], "quoted", t[1])], t[1], False)),
+        quoted_strings(d).map(lambda t: ([T(t[0], "quoted", t[1])], t[1], False)),
+        temporals(d).map(lambda t: ([T(t[0], "word", t[1])], t[1], False)),
     )
     return st.one_of(numv, numv, others, others)
 
@@ -281,7 +283,7 @@ def with_units(d, val):
         if allowed and draw(st.integers(0, 9)) < 3:
             u = draw(units_texts(d))
             pad = draw(st.sampled_from(["", "", " ", "  ", "\t"]))
-            toks = toks + [T("<" + pad + u + pad + ">", "units")]
+            toks = toks + [T("<" + pad + u + pad + ">", "units", u)]
             canon = ("q", canon, u)
         return (toks, canon, False)
 
@@ -366,7 +368,7 @@ def values(d):
             toks, canon = draw(st.one_of(seq, sets))
             if draw(st.integers(0, 9)) < 2:
                 u = draw(units_texts(d))
-                return (toks + [T("<" + u + ">", "units")], ("q", canon, u))
+                return (toks + [T("<" + u + ">", "units", u)], ("q", canon, u))
             return (toks, canon)
 
         return unit_on_agg()
